@@ -386,7 +386,8 @@ Fixpoint batch_loop (f : world -> nat -> option (option (world * seg))) (w : wor
   | tid :: r =>
       if table_skip w tid then batch_loop f w r segs processed
       else match f w tid with
-           | None => inr processed
+           | None => inr true   (* a panic inside the loop: tables may be processed in another
+                                   order by the implementation, so the state is not determined *)
            | Some None => batch_loop f w r segs processed
            | Some (Some (w1, s)) => batch_loop f w1 r (segs ++ [s]) true
            end
